@@ -29,3 +29,12 @@ package conversions
 //@   requires value != nil && big.WF(value)
 //@   ensures result1 == nil ==> bigIs64[uint64(value)] && !bigNeg[uint64(value)] && result0 == bigLo[uint64(value)]
 //@   ensures (result1 != nil) == !(bigIs64[uint64(value)] && !bigNeg[uint64(value)])
+
+// big.Float to machine integers: exact or fails. bfIsU64 / bfIsI64 (mathbig.ct) say that the value
+// is exactly an integer of the destination's range; a success returns that integer.
+//@ func BigFloatToUint
+//@   requires value != nil
+//@   ensures result1 == nil ==> bfIsU64[uint64(value)] && result0 == bfU64[uint64(value)]
+//@ func BigFloatToInt
+//@   requires value != nil
+//@   ensures result1 == nil ==> bfIsI64[uint64(value)] && result0 == bfI64[uint64(value)]
